@@ -20,6 +20,9 @@ type monitors struct {
 	c03       *c03state
 	c19       *c19state
 	c12       *c12state
+	// afterRestart: votes replayed from the WAL were not delivered by the simulator, so the
+	// per-signature obligations of C03 cannot be judged against "messages delivered so far"
+	afterRestart bool
 }
 
 func newMonitors(s *Sim) *monitors {
@@ -84,15 +87,17 @@ func (m *monitors) afterQuiescence() {
 		m.observe(n, rs)
 		m.checkProposer(n, rs)
 	}
-	if s.res.Failed() {
+	if s.failedNow() {
 		return
 	}
 	m.checkAcceptance()
-	if s.res.Failed() {
+	if s.failedNow() {
 		return
 	}
-	m.checkSignatures()
-	if s.res.Failed() {
+	if !m.afterRestart {
+		m.checkSignatures()
+	}
+	if s.failedNow() {
 		return
 	}
 	for id, n := range s.nodes {
@@ -127,8 +132,10 @@ func (m *monitors) afterQuiescence() {
 			}
 		}
 		m.seenSaved[id] = len(saved)
-		m.checkSaved(n)
-		if s.res.Failed() {
+		if !m.afterRestart {
+			m.checkSaved(n)
+		}
+		if s.failedNow() {
 			return
 		}
 	}
